@@ -321,6 +321,7 @@ func (e *Exec) callByContract(st *State, fr *Frame, callee *ssa.Function, ct *Co
 		res = append(res, e.havocValue(st, rs.At(i).Type(), "res_"+callee.Name()))
 	}
 	penv := e.entryEnv(st, callee, args, pre)
+	penv.water0 = pre.water
 	for i, n := range ct.Results {
 		if i < len(res) {
 			penv.vars[n] = res[i]
